@@ -129,10 +129,52 @@ def int_to_str(n):
     return "" if n < 0 else str(n)
 
 
+class ArrVal(object):
+    """Value of an array term: a default element and finitely many exceptions (kept only where they differ from
+    the default, so equal functions over an infinite index sort have equal representations)."""
+    __slots__ = ("default", "items", "index_sort")
+
+    def __init__(self, default, items=(), index_sort=None):
+        self.default = default
+        self.items = frozenset((i, v) for i, v in dict(items).items() if v != default)
+        self.index_sort = index_sort
+
+    def select(self, i):
+        return dict(self.items).get(i, self.default)
+
+    def store(self, i, v):
+        d = dict(self.items)
+        d[i] = v
+        return ArrVal(self.default, d, self.index_sort)
+
+    def _finite(self):
+        return self.index_sort is not None and self.index_sort[0] in ("BOOL", "BV")
+
+    def __eq__(self, other):
+        if not isinstance(other, ArrVal):
+            return False
+        if self._finite():
+            return all(self.select(i) == other.select(i) for i in domain(self.index_sort))
+        return self.default == other.default and self.items == other.items
+
+    def __ne__(self, other):
+        return not self.__eq__(other)
+
+    def __hash__(self):
+        return hash(("ArrVal", self.default if not self._finite() else None))
+
+    def __repr__(self):
+        return "[%r%s]" % (self.default, "".join(", %r:=%r" % kv for kv in sorted(self.items, key=repr)))
+
+
 # operator name -> function(args values, widths info) ; widths: result width w for BV results
 def apply(op, vals, w=None, payload=None, argw=None):
     """vals: operand values; w: width of the result for BV-valued operators; argw: width of the
     first BV operand for relations; payload: extra integers (extract bounds, rotate/extend steps)."""
+    if op == "ARRAY_SELECT" and isinstance(vals[0], ArrVal):
+        return vals[0].select(vals[1])
+    if op == "ARRAY_STORE" and isinstance(vals[0], ArrVal):
+        return vals[0].store(vals[1], vals[2])
     if op == "AND":
         return all(vals)
     if op == "OR":
@@ -378,6 +420,11 @@ def domain(sort, small=False):
         return ["", "a", "ab", "ba", "12", "-5"] if not small else ["", "ab", "12"]
     if k == "BV":
         return list(range(1 << sort[1]))
+    if k == "ARRAY":
+        idx, el = domain(sort[1], True), domain(sort[2], True)
+        out = [ArrVal(el[0], (), sort[1]), ArrVal(el[-1], (), sort[1]), ArrVal(el[0], {idx[0]: el[-1]}, sort[1]),
+               ArrVal(el[-1], {idx[-1]: el[0], idx[0]: el[0]}, sort[1])]
+        return out
     raise NoSemantics("domain of %s" % (sort,))
 
 
